@@ -705,3 +705,43 @@ func WithClosures(fn *ssa.Function) []*ssa.Function {
 	}
 	return out
 }
+
+// AxiomNoTrueErr: interface methods of the crypto client that never answer
+// (true, non-nil) - confirmed by reading github.com/xuperchain/crypto
+// core/sign/ecdsa.go (VerifyECDSA returns (false, err) or (ecdsa.Verify(..), nil)).
+var AxiomNoTrueErr = map[string]bool{"VerifyECDSA": true}
+
+// MayReturnTrueErr: a (bool, error) function may answer (true, non-nil), so a
+// caller that looks only at the boolean can miss a failure.
+func MayReturnTrueErr(fn *ssa.Function, depth int) bool {
+	if fn == nil || len(fn.Blocks) == 0 || depth > 4 {
+		return true
+	}
+	vs := sigOf(fn.Signature)
+	if vs.boolIdx < 0 || vs.errIdx < 0 {
+		return false
+	}
+	for _, ret := range Returns(fn) {
+		bv, ev := ret.Results[vs.boolIdx], ret.Results[vs.errIdx]
+		if IsNilConst(ev) {
+			continue
+		}
+		if b, ok := ConstBool(Strip(bv)); ok && !b {
+			continue
+		}
+		if be, ok := Resolve(bv).(*ssa.Extract); ok {
+			if ee, ok := Resolve(ev).(*ssa.Extract); ok && ee.Tuple == be.Tuple {
+				if call, ok := be.Tuple.(*ssa.Call); ok {
+					if call.Call.IsInvoke() && AxiomNoTrueErr[call.Call.Method.Name()] {
+						continue
+					}
+					if !MayReturnTrueErr(call.Call.StaticCallee(), depth+1) {
+						continue
+					}
+				}
+			}
+		}
+		return true
+	}
+	return false
+}
